@@ -6,6 +6,7 @@ import Gengo.Driver.Namer
 import Gengo.Driver.Writer
 import Gengo.Driver.Exec
 import Gengo.Driver.Order
+import Gengo.Driver.ImportBoss
 open Gengo Gengo.Proto
 
 /-- state of the stateful components (one history at a time per component) -/
@@ -13,6 +14,7 @@ structure DState where
   trk : Tracker.T := Tracker.new false []
   sw : Driver.Writer.St := {}
   ex : Driver.Exec.St := {}
+  ib : Driver.ImportBoss.St := {}
 
 def dispatch (s : DState) (f : List Str) : DState × Str :=
   match f with
@@ -24,6 +26,9 @@ def dispatch (s : DState) (f : List Str) : DState × Str :=
     else if c = str "trk" then
       let (t, o) := Driver.Tracker.handle s.trk rest
       ({ s with trk := t }, o)
+    else if c = str "ib" then
+      let (t, o) := Driver.ImportBoss.handle s.ib rest
+      ({ s with ib := t }, o)
     else if c = str "ex" then
       let (t, o) := Driver.Exec.handle s.ex rest
       ({ s with ex := t }, o)
